@@ -170,7 +170,9 @@ class Cold:
 # history spaces
 # ----------------------------------------------------------------------------------------------------------------------
 def cands(op):
-    return [o for t in op["types"] for o in pool.observations_of(t)]
+    """observations of the types an operation can affect, interleaved over the types (so that a prefix is diverse)"""
+    per = [pool.observations_of(t) for t in op["types"]]
+    return [l[k] for k in range(max(map(len, per), default=0)) for l in per if k < len(l)]
 
 
 def shared(a, b):
@@ -517,8 +519,6 @@ def run(env):
         if len(pending) >= (400 if shape != "long" else 16):
             flush()
 
-    if env.shard == 0:
-        reset_call_diagnostic(env)
     # the batched cold oracle against truly fresh interpreters (one process per query, no fork at all)
     n_x = (2 if env.shard < 6 else 0) if env.quick() else 6
     xrng = random.Random(h64("c09-x", env.seed, env.shard))
@@ -533,14 +533,6 @@ def run(env):
         if single != b:
             env.inconclusive.append("batched cold oracle disagrees with a one-query fresh interpreter: " + J(x))
 
-    # long random histories first (they are the ones a time cap must not starve), then the enumerated short ones
-    n_long = env.n(48, 1600)
-    for _ in range(n_long):
-        if env.out_of_time():
-            env.count("stopped_by_time_cap")
-            break
-        execute("long", long_history(env.rng))
-    flush()
     def priority(item):
         shape, steps = item
         if shape == "S2" and steps[0] == steps[2]:
@@ -554,22 +546,43 @@ def run(env):
         return 2
 
     shorts = list(short_histories(env))
-    head, taken = set(), {}
-    for i, (shape, _) in enumerate(shorts):  # a few of every shape first, so that a time cap never starves a shape
-        if taken.get(shape, 0) < 8:
+    head, taken, rank, seen_rank = [], {}, [], {}
+    for i, (shape, steps) in enumerate(shorts):
+        if taken.get(shape, 0) < 6:
             taken[shape] = taken.get(shape, 0) + 1
-            head.add(i)
-    order_ = sorted(range(len(shorts)), key=lambda i: (0 if i in head else 1, priority(shorts[i]), i))
-    for shape, steps in (shorts[i] for i in order_):
+            head.append(i)
+        first_op = next((J(strip(s)) for s in steps if is_op(s)), "")
+        k = (priority((shape, steps)), first_op)
+        rank.append(seen_rank.get(k, 0))  # round-robin over the operations inside a priority class:
+        seen_rank[k] = rank[-1] + 1       # a time cap then thins every operation instead of dropping the last ones
+    in_head = set(head)
+    order_ = sorted((i for i in range(len(shorts)) if i not in in_head), key=lambda i: (priority(shorts[i]), rank[i], i))
+
+    # 1. a few histories of every shape (so that a time cap never starves a shape)
+    for i in head:
+        execute(*shorts[i])
+    flush()
+    # 2. long random histories (count-based budget; at most 40% of the time cap)
+    import time as _time
+    for _ in range(env.n(48, 1600)):
+        if _time.time() - env.t0 > 0.4 * env.time_cap:
+            env.count("long_histories_stopped_by_time_share")
+            break
+        execute("long", long_history(env.rng))
+    flush()
+    # 3. the enumerated short histories, most informative first
+    for i in order_:
         if env.out_of_time():
             env.count("stopped_by_time_cap")
+            env.count("short_histories_not_run", len(order_) - order_.index(i))
             break
-        execute(shape, steps)
+        execute(*shorts[i])
     flush()
     env.count("distinct_ops_exercised", len(exercised))
     for k in exercised:
         env.count("opseen|" + hashlib.blake2b(k.encode(), digest_size=6).hexdigest())
-
+    if env.shard == 0:
+        reset_call_diagnostic(env)
 
 
 def finish_coverage(cov, counters, tier):
